@@ -31,8 +31,12 @@ REGISTRATION = {
             "(blobs_mkdir_confined); both spellings of a digest address one blob (canonical_same_blob); server.Manifests "
             "opens exactly the file it enumerated under the name that file spells (manifestsEnum_*); GetFullTagname / "
             "GetShortTagname are read back unchanged by ParseModelPath and model.ParseName (modelpath_print_parse*). "
-            "DisplayShortest and blob.pathToName / DiskCache.Links are modelled and tied exactly (L1) and monitored (L2) but "
-            "have no theorem. A run in which any outcome class of a modelled entry point is not exercised fails closed.",
+            "ParseModelPath and model.ParseName read the same four parts on every input both accept (cross_modelpath); what "
+            "DisplayShortest prints is read back as the same name up to the case of an abbreviated default part "
+            "(displayShortest_roundtrip); the link path the cache creates for an accepted name is listed by DiskCache.Links "
+            "as exactly the printed name, accepted again at the same path (pathToName_roundtrip). Finding N1's repair is "
+            "pinned (Tie n1_variant_is_repaired; a probe that says 'pinned' is a variant-regression violation). A run in "
+            "which any outcome class of a modelled entry point is not exercised fails closed.",
     "design_ref": "DESIGN.md §5 C13",
     "note": COMMON_NOTE + "Modelled, not verified: path/filepath Clean/Join (unix build; own component model, "
             "differentially tested against the real functions), strings.EqualFold as a hand matcher that is exact for "
